@@ -16,3 +16,6 @@ boot.build_registries()
 import moclo, moclo.kits.ytk, moclo.registry.ytk
 print("setup ok: moclo", moclo.__version__, "from", boot.REPO)
 PY
+# the harness's own oracles against independent references (naive rotation, `re` on rotated copies, the
+# assembly case pinned by the repository's tests): a broken oracle must not go unnoticed
+PYTHONWARNINGS=ignore /venv/bin/python tools/selftest.py
